@@ -196,7 +196,10 @@ func runStall(a *args, res *result) {
 					t := newStallTarget(r, kind, 2048)
 					stable := map[int]any{}
 					for k := 0; k < sc.base; k++ {
-						v := nextVal(k)
+						var v any = nextVal(k)
+						if t.zero == nil && k%5 == 3 {
+							v = nil // a stored untyped nil is a present value like any other
+						}
 						t.store(k, v)
 						stable[k] = v
 					}
